@@ -1211,8 +1211,11 @@ def _int_cycle_cases(draw, tier):
     # cycle counts as written down in low-cycle fatigue or in kilo-cycles / blocks: small integers
     unit = draw(st.sampled_from([1.0, 1e-3, 1e-3, 1e-4, 1e-2]))
     rows = [[r[0], float(max(1, int(round(r[1] * unit)))), r[2]] for r in ds["rows"]]
-    return {"rows": rows, "dtype": draw(st.sampled_from(["int64", "Int64", "int32", "uint32"])),
-            "c": 2.0 ** draw(st.integers(1, 9)), "unit": unit}
+    dt = draw(st.sampled_from(["int64", "Int64", "int32", "uint32"]))
+    c = 2.0 ** draw(st.integers(1, 9))
+    if dt in ("int32", "uint32") and max(r[1] for r in rows) * c >= 2.0 ** 31:
+        dt = "int64"                    # 32-bit counters cannot hold these numbers
+    return {"rows": rows, "dtype": dt, "c": c, "unit": unit}
 
 
 @subcheck(PROP, "closed_int_cycles", strategy=_int_cycle_cases, quick=300, thorough=12000,
@@ -1227,6 +1230,13 @@ def closed_int_cycles(case, ctx):
     rows_c = transformed(rows, "cycles", c=c)
     names = ["Elementary", "Probit"] + (["MaxLikeInf"] if len(s["mixed"]) >= 2 and len(rows) <= 16 else [])
     ok_all = True
+    # FC18_d: nullable Int64 cycles and an empty finite zone (every fracture at or below the highest run-out level):
+    # Elementary._raise_if_no_cycle_variance_in_finite_zone compares max() == min() of an empty column, which is pd.NA for the
+    # nullable dtype (NaN == NaN -> False for float64 / int64): TypeError instead of the documented warning + NaN curve
+    if dt == "Int64" and not structure(relevant(rows))["finite"] and s["n_fractures"] > 0:
+        ctx.label("FC18_d_class")
+        if ctx.known("FC18_d"):
+            return
     for name in names:
         fl = analyse(name, rows, want_estimator=True)
         it = analyse(name, rows, want_estimator=True, cycles_dtype=dt)
@@ -1334,7 +1344,16 @@ def history_transition(case, ctx):
                         bucket="history_transition:zones")
     changed = zu[0] != z0[0]
     ctx.label("finite_zone_changed" if changed else "finite_zone_same")
+    # FC18_c: no run-outs and a user-set transition that leaves fewer than two fracture levels above it (but two or more
+    # levels below): Probit.__probit_analysis calls _transition_cycles() although the slope fit was skipped -> AttributeError
+    above = set(r[0] for r in rows if r[2] and r[0] > x)
+    below = set(r[0] for r in rows if r[0] <= x)
+    probit_crash = op == "set" and s["n_runouts"] == 0 and len(above) < 2 and len(below) >= 2
     for name in ("Elementary", "Probit"):
+        if name == "Probit" and probit_crash:
+            ctx.label("FC18_c_class")
+            if ctx.known("FC18_c"):
+                continue
         ru, rf = _run_on(used, name), _run_on(fresh, name)
         same = ru[0] == rf[0] and ru[2] == rf[2] and (ru[1] == rf[1] if ru[0] == "ValueError" else
                                                      all(ru[1][k_] == rf[1][k_] or (math.isnan(ru[1][k_]) and math.isnan(rf[1][k_])) for k_ in PARAMS))
